@@ -43,7 +43,7 @@ struct Options {
   int sw = -1, tm = -1, depth = 3, spurious = 0;
   long max_steps = 200000;
   int jobs = 1;
-  int timeout_ms = 20000;
+  int timeout_ms = 120000;  // wall-clock guard per execution (virtual time makes real hangs impossible unless the code blocks outside the scheduler)
   bool atomics = true;
 };
 
